@@ -3,6 +3,7 @@ package envsched
 import (
 	"fmt"
 	"slices"
+	"strings"
 	"testing"
 
 	"verif/harness/common"
@@ -51,9 +52,48 @@ func disciplines(n int, r rng) [][]string {
 	return out
 }
 
+// c07FailFast: under Lift/LiftF, once the failing element has been sent the stage must deliver the
+// error, close both channels and stop — whether or not its input is ever closed — and must not have
+// taken anything after the failing element from its input.
+func c07FailFast(w *world) {
+	c := w.c
+	if c.Mode != "lift" || len(w.ins) == 0 {
+		return
+	}
+	in := w.ins[0].snap()
+	k := -1
+	for i, x := range in.issued {
+		if c.fails(x) {
+			k = i
+			break
+		}
+	}
+	if k < 0 {
+		return
+	}
+	w.drainAll()
+	w.quiesce()
+	in = w.ins[0].snap()
+	if len(in.sent) <= k {
+		return // the failing element never reached the stage (input closed before)
+	}
+	for _, p := range w.allPorts() {
+		if s := p.snap(); !s.closed {
+			w.bad("not-closed", "fail-fast: element %d failed, both channels are being read, the input is still open: %s did not close (received %v)", in.issued[k], p.name, s.ints())
+		}
+	}
+	if consumed := len(in.sent) - in.buffered; consumed > k+1 {
+		w.bad("calls", "fail-fast: the stage took %d elements from its input although element #%d (%d) failed", consumed, k+1, in.issued[k])
+	}
+	if g := w.libGoroutines(); g > 0 {
+		w.bad("leak", "fail-fast: %d library goroutine(s) still alive after the failure was delivered and both channels drained:\n%s", g, strings.Join(w.census(), "\n--\n"))
+	}
+}
+
 func c07Final(w *world) {
 	c := w.c
 	if !isSource(c.Stage) {
+		c07FailFast(w)
 		return
 	}
 	// sources: both consumers were draining while the clock advanced T ticks (Emit) / until the failure (Unfold)
@@ -151,8 +191,12 @@ func genC07(t *testing.T) {
 						if common.Thorough() {
 							pick = []int{0, 1, 2, 3, 4, 5}
 						}
-						for _, d := range pick {
-							run(&caseT{Site: st + "/" + mode, Stage: st, Cap: cp, Mode: mode, Inputs: [][]int{in}, Fail: fail, FSeed: uint64(k % 97), Script: ds[d], End: "complete", Tick: tick})
+						for j, d := range pick {
+							sc := ds[d]
+							if (k+j)%2 == 0 { // the producer never closes: only the end game does, after the fail-fast check
+								sc = slices.DeleteFunc(slices.Clone(sc), func(m string) bool { return m[0] == 'C' })
+							}
+							run(&caseT{Site: st + "/" + mode, Stage: st, Cap: cp, Mode: mode, Inputs: [][]int{in}, Fail: fail, FSeed: uint64(k % 97), Script: sc, End: "complete", Tick: tick})
 						}
 					}
 				}
@@ -204,6 +248,10 @@ func genC07(t *testing.T) {
 		st := []string{"Map", "FMap"}[r.IntN(2)]
 		mode := []string{"lift", "try"}[r.IntN(2)]
 		ds := disciplines(ln, r)
-		run(&caseT{Site: st + "/" + mode, Stage: st, Cap: r.IntN(9), Mode: mode, Inputs: [][]int{in}, Fail: fail, FSeed: r.Uint64() % 1000, Script: ds[r.IntN(len(ds))], End: "complete", Tick: tick})
+		sc := ds[r.IntN(len(ds))]
+		if r.IntN(2) == 0 {
+			sc = slices.DeleteFunc(slices.Clone(sc), func(m string) bool { return m[0] == 'C' })
+		}
+		run(&caseT{Site: st + "/" + mode, Stage: st, Cap: r.IntN(9), Mode: mode, Inputs: [][]int{in}, Fail: fail, FSeed: r.Uint64() % 1000, Script: sc, End: "complete", Tick: tick})
 	}
 }
